@@ -246,7 +246,7 @@ def run_paxos(chk, jobs, tier, rng, parallel):
     def add(rec, info, mode="safety", pval=0):
         T.add(lambda tid: rec.trace(tid, [], mode=mode, pval=pval), info, rec.error)
 
-    n_direct, n_sim, n_prog = (150, 20, 12) if tier == "quick" else (2500, 300, 200)
+    n_direct, n_sim, n_prog = (150, 20, 12) if tier == "quick" else (900, 120, 60)
     for k in range(n_direct):
         c, info = P.random_direct(rng, strat=P.STRATS[k % len(P.STRATS)])
         info["origin"] = "random direct drive"
@@ -384,7 +384,7 @@ def run_multi(chk, jobs, tier, rng, parallel):
     def add(rec, info, mode="safety", pcmds=()):
         T.add(lambda tid: rec.trace(tid, info["cfg"], mode=mode, pcmds=pcmds), info, rec.error)
 
-    n_direct, n_sim, n_prog = (120, 12, 16) if tier == "quick" else (2000, 200, 300)
+    n_direct, n_sim, n_prog = (120, 12, 16) if tier == "quick" else (720, 72, 96)
     for k in range(n_direct):
         cfg = M.random_cfg(rng, flex=bool(k % 2))
         c, info = M.random_direct(rng, cfg=cfg, strat=M.STRATS[k % len(M.STRATS)])
@@ -472,7 +472,7 @@ def misc_jobs(jobs, tier):
     jobs.submit("elect_dev", lambda: mc("Election.tla", "elect_dev", dict(ec, Strategies='{"ring"}',
                                                                           Dev='{"ring_winner_is_initiator"}'),
                                         ["InvOneLeaderPerTerm"], workers=small))
-    lc = {"Locks": "{1,2}", "Clients": "{1,2,3}", "MaxOps": 7 if big else 6, "MaxWaiters": 0, "Dev": "{}"}
+    lc = {"Locks": "{1,2}", "Clients": "{1,2,3}", "MaxOps": 6 if big else 5, "MaxWaiters": 0, "Dev": "{}"}
     jobs.submit("lock_clean", lambda: mc("Lock.tla", "lock_clean", lc, ["InvTokensIncrease"], workers=small))
     jobs.submit("lock_dev", lambda: mc("Lock.tla", "lock_dev", dict(lc, Dev='{"waiter_inherits_token"}'),
                                        ["InvTokensIncrease"], workers=small))
@@ -481,7 +481,7 @@ def misc_jobs(jobs, tier):
 def run_misc(chk, jobs, tier, rng, parallel):
     from . import c12_misc as X
     E, L = Traces(chk, "elect"), Traces(chk, "lock")
-    n_e, n_es, n_l, n_ls = (45, 9, 60, 12) if tier == "quick" else (1000, 150, 2000, 300)
+    n_e, n_es, n_l, n_ls = (45, 9, 60, 12) if tier == "quick" else (270, 54, 360, 72)
     for k in range(n_e):
         rec, info = X.election_direct(rng, strategy=("bully", "ring", "random")[k % 3])
         info["origin"] = "random direct drive"
